@@ -107,7 +107,7 @@ var procsMu sync.RWMutex // GOMAXPROCS is process global: cases that change it r
 
 func TestC01Conservation(t *testing.T) {
 	e := vrun.LoadEnv()
-	meta := vrun.Meta{Property: "C01", Workload: "TestC01Conservation", Total: e.Pick(300, 6000),
+	meta := vrun.Meta{Property: "C01", Workload: "TestC01Conservation", Total: e.Pick(300, 40000),
 		Rule: "each case draws (flush policy and parameter, QoS, datagram side channel, encoding, ack mode immediate/batched/reversed/duplicated, result codes, alias policy never/at-open/after-nth, 1-4 writer goroutines, id pool 1-6 plus fresh ids, 5-44 operations per writer mixing Write of 0-8 points with payload sizes 0/1/100/64KiB, Flush and yields); writers are joined and the stream is closed (1 in 6 cases lets Close overlap the writers: only the unconditional safety clauses are judged there). Oracle: broker-side ledger decoded through the alias table the broker issued vs. the recorded writes (multiset, per-writer per-id order, sequence numbers 1..N, close totals, nothing after the close request) + hook multisets at the closed notification. non-trivial = >=2 chunks and (>=2 writers or alias switch-over observed or batched/reordered acks); distinct = scenario tuple x chunk-boundary signature",
 		Assumptions: []string{"hook completeness is evaluated when the closed notification has been delivered (hooks are dispatched asynchronously in FIFO order before it)",
 			"the broker keeps fewer than 1024 acks outstanding (the documented buffering) - at most ~200 chunks per case",
